@@ -217,6 +217,7 @@ def opMPos (op : String) (raw : Impl.RawBoard) (rest : List String) : String :=
       match parseMove mv with
       | none => "badop"
       | some m =>
+        if !m.isWellFormed then "notwf" else
         match Impl.sanFromMove m b with
         | .ok sm => (match Impl.fmtSan sm with | .ok t => "ok " ++ fmtStr t | _ => "panic")
         | .err e => "err:" ++ fmtMoveValidateErr e
@@ -418,6 +419,7 @@ def opSPos (op : String) (raw : Impl.RawBoard) (rest : List String) (impl : Stri
       match parseMove mv with
       | none => "-"
       | some m =>
+        if !Spec.geomPossible m.kind (absCell m.cell) m.src m.dst then expect "notwf" impl else
         match absMove m with
         | some sm =>
           if (Spec.legalMoves p).contains sm then expect ("ok " ++ fmtStr (Spec.San.write p sm)) impl
